@@ -14,8 +14,10 @@ use std::process::Command;
 use vcore::*;
 use wow_mpq::{AddFileOptions, Archive, ArchiveBuilder, FormatVersion, ListfileOption, MutableArchive};
 
-const SYSCALLS: [&str; 17] = [
+const SYSCALLS: [&str; 33] = [
     "openat", "open", "creat", "write", "pwrite64", "writev", "lseek", "fsync", "fdatasync", "ftruncate", "rename", "renameat", "renameat2", "unlink", "unlinkat", "link", "linkat",
+    // data can also reach (or leave) a file without write(): in-kernel copies, and the calls around them
+    "copy_file_range", "sendfile", "splice", "fallocate", "truncate", "fchmod", "fchmodat", "chmod", "mkdir", "mkdirat", "symlink", "symlinkat", "read", "pread64", "close", "fstat",
 ];
 const ERRNOS: [&str; 3] = ["ENOSPC", "EIO", "EACCES"];
 
